@@ -46,7 +46,14 @@ def main(argv):
     finally:
         subprocess.run(["git", "-C", "/repo", "checkout", "--", "."], check=False)
         subprocess.run(["rm", "-rf", scratch], check=False)
-    with open(os.path.join(sdir, "results.json"), "w") as f:
+    rp = os.path.join(sdir, "results.json")
+    try:
+        prev = json.load(open(rp)).get("results", {})
+    except Exception:
+        prev = {}
+    prev.update(results)
+    results = prev
+    with open(rp, "w") as f:
         json.dump({"seed": sid, "repo_head": subprocess.run(["git", "-C", "/repo", "log", "--format=%h", "-1"], stdout=subprocess.PIPE, text=True).stdout.strip(),
                    "verif_seed": os.environ.get("VERIF_SEED", "1"), "results": results}, f, indent=1)
     return 0
